@@ -459,6 +459,15 @@ class Interp:
         self.err(n, "expression %s" % type(n).__name__)
 
     def arith(self, op, a, b, src):
+        # out-of-place Kelvin-Mandel rescale of one component:  comp / coef,  comp * (1 / coef),  (1 / coef) * comp
+        def is_comp(x):
+            return isinstance(x, tuple) and len(x) == 5 and x[0] == "tcomp"
+        if op == "/" and is_comp(a) and b == ("opaque", "COEF"):
+            return ("tcomp", a[1], a[2], a[3] + (("arith", "/", 1, ("opaque", "COEF")),), a[4])
+        if op == "*" and is_comp(a) and is_inv_coef(b):
+            return ("tcomp", a[1], a[2], a[3] + (b,), a[4])
+        if op == "*" and is_comp(b) and is_inv_coef(a):
+            return ("tcomp", b[1], b[2], b[3] + (a,), b[4])
         ok = lambda x: isinstance(x, (int, float)) and not isinstance(x, bool) or (isinstance(x, tuple) and x and x[0] in ("tcomp", "arith", "opaque"))
         if op == "neg":
             return ("arith", "neg", a) if ok(a) and not is_opaque(a) else opaque(src)
